@@ -74,6 +74,45 @@ def lc3v(args, out, seed, tier, timeout=3600, env_extra=None):
     return n
 
 
+def lc3v_replay_parallel(domain, hist, ops, out, seed, tier, parts=8):
+    """A large replay in `parts` harness processes (the behaviours are independent): the history file is cut
+    into contiguous pieces, each replayed with run numbers continuing where the previous piece ends, and the
+    outputs are concatenated (the `Os` record only once)."""
+    lines = [l for l in open(hist).read().splitlines() if l.strip()]
+    size = (len(lines) + parts - 1) // parts
+    procs = []
+    for k in range(parts):
+        piece = lines[k * size:(k + 1) * size]
+        if not piece:
+            continue
+        hp, op = "%s.p%d" % (hist, k), "%s.p%d" % (out, k)
+        with open(hp, "w") as f:
+            f.write("\n".join(piece) + "\n")
+        env = dict(os.environ, VERIF_SEED=str(seed), VERIF_TIER=tier)
+        cmd = [BIN, "replay", domain, "hist=" + hp, "ops=" + ops, "run0=%d" % (k * size), "--out", op, "--seed", str(seed), "--tier", tier]
+        procs.append((subprocess.Popen(cmd, env=env, stdout=subprocess.DEVNULL, stderr=subprocess.PIPE, text=True), cmd, hp, op))
+    n = 0
+    with open(out, "w") as fo:
+        for j, (pr, cmd, hp, op) in enumerate(procs):
+            try:
+                _, err = pr.communicate(timeout=3600)
+            except subprocess.TimeoutExpired:
+                pr.kill()
+                raise ToolError("harness timed out: " + " ".join(cmd))
+            if pr.returncode != 0:
+                sys.stderr.write(err[-4000:])
+                raise ToolError("harness failed (%d): %s" % (pr.returncode, " ".join(cmd)))
+            with open(op) as fi:
+                for i, line in enumerate(fi):
+                    if j > 0 and i == 0 and '"ev":"Os"' in line:
+                        continue
+                    fo.write(line)
+                    n += 1
+            os.remove(op)
+            os.remove(hp)
+    return n
+
+
 def read_records(path, idxs):
     """Records (1-based indices) of an NDJSON file."""
     want = set(idxs)
@@ -291,6 +330,9 @@ class Run:
                 if m:
                     f.write("[" + m.group(1) + "]\n")
                     nh += 1
+        if nh == 0 and r.violations:
+            # the model itself already violates the property (recorded by mc_leg): there is nothing to replay
+            return r, None, 0, []
         if nh == 0:
             raise ToolError("leg %s: TLC printed no behaviour" % name)
         out = os.path.join(self.work, name + ".ndjson")
@@ -469,7 +511,7 @@ class Run:
         return r, path, n, rejected
 
     def rp_leg(self, name, mc_spec, mc_cfg, domain, ops_file, verdict, workers=8, timeout=3000, env=None,
-               tv_spec="TV_Machine", tv_cfg="TV_Machine.cfg", expect_all=True):
+               tv_spec="TV_Machine", tv_cfg="TV_Machine.cfg", expect_all=True, parallel=False):
         """RP leg: TLC enumerates every behaviour of a bounded model and checks the property on it (MC);
         each maximal behaviour it prints (<<"HIST", <<...>>>>) is replayed by the harness on the real
         crate, and the recorded outcomes are validated by TLC against the same operators (TV)."""
@@ -484,10 +526,16 @@ class Run:
                 if m:
                     f.write("[" + m.group(1) + "]\n")
                     nh += 1
+        if nh == 0 and r.violations:
+            # the model itself already violates the property (recorded by mc_leg): there is nothing to replay
+            return r, None, 0, []
         if nh == 0:
             raise ToolError("leg %s: TLC printed no behaviour" % name)
         out = os.path.join(self.work, name + ".ndjson")
-        n = lc3v(["replay", domain, "hist=" + hist, "ops=" + ops], out, self.seed, self.tier)
+        if parallel and nh > 2000:
+            n = lc3v_replay_parallel(domain, hist, ops, out, self.seed, self.tier)
+        else:
+            n = lc3v(["replay", domain, "hist=" + hist, "ops=" + ops], out, self.seed, self.tier)
         res = self.trace_leg(name, ["replay", domain], spec=tv_spec, cfg=tv_cfg, verdict=verdict, path=out, workers=workers,
                              expect_all=expect_all)
         self.legs[-1].update({"kind": "RP (TLC-enumerated behaviours replayed on the implementation, then TV)",
@@ -508,6 +556,9 @@ class Run:
                 if m:
                     f.write("[" + m.group(1) + "]\n")
                     nh += 1
+        if nh == 0 and r.violations:
+            # the model itself already violates the property (recorded by mc_leg): there is nothing to replay
+            return r, None, 0, []
         if nh == 0:
             raise ToolError("leg %s: TLC printed no behaviour" % name)
         # large enumerations are validated in parts (TLC reads a whole record file into memory)
@@ -768,7 +819,8 @@ def c12(run):
                                      "trapmode", "MC_TrapMode_ops.ndjson", env={"OSIMG": ospath}, tv_spec="TV_Pairs", tv_cfg="TV_Pairs.cfg",
                                      verdict=PAIRV + ["real-traps-output-differs", "real-traps-registers-differ", "real-traps-user-memory-differs",
                                                       "real-traps-no-halt", "exception-message-differs", "exception-no-halt"], expect_all=False)
-    run.trace_leg("rp_trapmode_conf", ["replay", "trapmode"], verdict=["panic"], path=path2)
+    if path2:
+        run.trace_leg("rp_trapmode_conf", ["replay", "trapmode"], verdict=["panic"], path=path2)
     return run.finish(
         rule="user programs with I/O traps, subroutines and stack use, some halting and some faulting (access violation "
              "by load and by store, RTI in user mode, reserved opcode, invalid format), each run to completion under "
@@ -914,9 +966,9 @@ def c04(run):
     run.rp_rec_leg("rp_garbage", "MC_Garbage", "MC_Garbage4.cfg" if run.tier == "thorough" else "MC_Garbage.cfg", "parse",
                    "MC_Garbage_ops.ndjson", spec="TV_Parse", cfg="TV_Parse.cfg", verdict=["panic", "errspan", "unknown-event"], workers=16)
     return run.finish(
-        rule="(0) MC + RP: every text of up to 3 (thorough: 4) tokens out of 20 (mnemonics, register, comma, colon, newline, numbers in and "
+        rule="(0) MC + RP: every text of up to 3 (thorough: 4) tokens out of 21 (mnemonics, register, a label that begins like a register, comma, colon, newline, numbers in and "
              "out of range, a bare sign, label, directives, closed and unclosed string literal, comment, non-ASCII character) separated by "
-             "spaces - 8 420 (168 420) texts: Lexer!Tokenize and Grammar!ParseProgram are total, lexical errors and statement spans lie "
+             "spaces - 9 723 (204 204) texts: Lexer!Tokenize and Grammar!ParseProgram are total, lexical errors and statement spans lie "
              "inside the text; each text then goes through the real parser (no panic, one error span inside the input; agreement with the "
              "grammar as drift); (1) every text `.stringz \"` + s for all strings s of up to 4 (thorough: 6) symbols over {quote, backslash, n, a, "
              "e-acute, LF, CR, space}: TLC predicts the exact outcome with Lexer!ScanStr / Grammar (the string value, or an "
@@ -986,9 +1038,9 @@ def c02(run):
 
 @check("C23")
 def c23(run):
-    run.rec_leg("asm", ["asm", "faults=10"], verdict=["panic", "labels", "extflag", "labelquery", "symtab-rejected", "unknown-event"])
+    run.rec_leg("asm", ["asm", "faults=10"], verdict=["panic", "labels", "extflag", "labelquery", "symtab-rejected", "objsym", "unknown-event"])
     run.rp_rec_leg("rp_asm", "MC_AsmRP", "MC_AsmRP4.cfg" if run.tier == "thorough" else "MC_AsmRP3.cfg", "asm", "MC_Asm_ops.ndjson",
-                   verdict=["panic", "labels", "extflag", "labelquery", "symtab-rejected", "unknown-event"], workers=16)
+                   verdict=["panic", "labels", "extflag", "labelquery", "symtab-rejected", "objsym", "unknown-event"], workers=16)
     return run.finish(
         rule="for every generated program whose pass 1 succeeds: every label of the program (definitions, operands, "
              "externals, labels on .end lines, repeated labels on one address) queried in four spellings plus near-miss and "
@@ -1178,8 +1230,14 @@ def machine_args(run, extra=()):
 def c08(run):
     run.mc_leg("mc_machine", "MC_Machine", "MC_Machine2.cfg" if run.tier == "thorough" else "MC_Machine.cfg", workers=16, timeout=3000, heap="16g")
     run.trace_leg("machine", ["machine", "kind=all"], verdict=CONF + ["simerr", "intgate", "depth", "isolation", "obsprop"])
+    # RP: every one-step behaviour of the narrow configuration of MC_Machine performed on a real simulator
+    run.rp_leg("rp_machine", "MC_Machine", "MC_MachineRP.cfg", "machine", "MC_Machine_ops.ndjson",
+               verdict=CONF + ["simerr", "depth", "isolation", "obsprop", "strictrel"], workers=16, parallel=True)
     return run.finish(
-        rule="runs of the real Simulator (random machine states x random words at PC; structured programs through "
+        rule="RP: every one-step behaviour of the narrow configuration of MC_Machine (768 adversarial machines - PC at x3000/xFDFF/xFE00, "
+             "user, supervisor, priority-3 and condition-code-less PSR, registers x3000/xFDFF initialized or not, R6 x3000/xFE00, strict, real traps, "
+             "memory initialized or not with every word a boundary address - x 59 instruction words = 45 312 behaviours) is built on "
+             "a real simulator and stepped; TV_Machine validates the step.  TV: runs of the real Simulator (random machine states x random words at PC; structured programs through "
              "the real OS with keyboard input; interrupt schedules with harness devices, keyboard interrupts and "
              "seeded timers; seeded full-memory images), every step_in validated by TLC against Machine!StepIn "
              "with the full projection (registers+masks, PC, PSR, saved SP, prefetch, MCR, frames, instruction "
@@ -1280,8 +1338,16 @@ def c14(run):
     # and the specification-level relation StrictRel holds from every validated state
     run.trace_leg("pairs_conf", ["machine", "kind=strictpairs"], verdict=["strictrel", "panic"], path=path)
     run.trace_leg("rand_rel", ["machine", "kind=rand", "strict=50"], verdict=["strictrel", "panic"])
+    # RP: the one-step behaviours of MC_Machine come in twins that differ in strict mode only; both are performed on real
+    # simulators and form a pair (fully initialized machines: no strict error at all)
+    r, path, n, rej = run.rp_leg("rp_machine", "MC_Machine", "MC_MachineRP.cfg", "machine", "MC_Machine_ops.ndjson",
+                                 verdict=["strictrel", "panic"], workers=16, parallel=True)
+    if path:
+        run.trace_leg("rp_machine_rel", ["replay", "machine"], spec="TV_Pairs", cfg="TV_Pairs.cfg", verdict=PAIRV, expect_all=False, path=path)
     return run.finish(
-        rule="pairs of real runs driven in lockstep from identical states, strict off (A) and on (B): programs with "
+        rule="RP: every one-step behaviour of the narrow configuration of MC_Machine (768 adversarial machines x 59 instruction words) "
+             "performed on real simulators as strict-off / strict-on twins and related by TV_Pairs (on fully initialized machines "
+             "strict mode reports no error at all; elsewhere it fails with a strict error or changes nothing).  TV: pairs of real runs driven in lockstep from identical states, strict off (A) and on (B): programs with "
              "jumps into OS memory and I/O pages, .blkw regions, stack-relative accesses, timers, keyboard input; "
              "TLC checks on every logged step that B fails with a strict error or equals A in outcome and full "
              "projection; on fully initialized machines B never reports a strict error; additionally the "
@@ -1308,16 +1374,16 @@ def c29(run):
 @check("C30")
 def c30(run):
     run.trace_leg("reset", ["machine", "kind=reset"], verdict=CONF + ["newok", "kept"])
-    # MC + RP: C30 stated on MachineProps!ResetOf for every machine reachable by up to 2 (thorough: 3) calls of a 25-call
+    # MC + RP: C30 stated on MachineProps!ResetOf for every machine reachable by up to 2 (thorough: 3) calls of a 26-call
     # alphabet; every maximal history is then performed on a real simulator, reset, probed, run, reset again
     run.rp_leg("rp_reset", "MC_Reset", "MC_Reset3.cfg" if run.tier == "thorough" else "MC_Reset.cfg", "reset", "MC_Reset_ops.ndjson",
                verdict=CONF + ["newok", "kept", "nsteps", "pause"], workers=8)
     return run.finish(
-        rule="MC: on every machine reachable by up to 2 (thorough: 3) calls out of 25 (pokes, steps, flag changes, devices and timers "
+        rule="MC: on every machine reachable by up to 2 (thorough: 3) calls out of 26 (pokes, steps, flag and initialization-strategy changes, devices and timers "
              "attached and removed, keyboard/display removed, internal registers mapped/unmapped/rebound, MCR set, port writes, "
-             "keys, a breakpoint, a load, a subroutine definition, reset itself: 651 / 16 276 states) TLC evaluates the statement of "
+             "keys, a breakpoint, a load, a subroutine definition, reset itself: 703 / 18 279 states) TLC evaluates the statement of "
              "C30 on ResetOf (execution state of a new machine for the current flags, configuration kept, devices io_reset, reset "
-             "idempotent).  RP: each of the 625 (15 625) maximal histories is performed on a real simulator, followed by reset, probes "
+             "idempotent).  RP: each of the 676 (17 576) maximal histories is performed on a real simulator, followed by reset, probes "
              "through the kept ports and mappings, a bounded run that the kept breakpoint must stop, a second reset and two steps; "
              "TV_Machine validates every call.  TV: random histories (loads, steps, register/memory pokes, flag changes, breakpoints, timer and register "
              "devices, internal-register mappings, keyboard IE) followed by reset, twice per run, for Known and Seeded "
